@@ -16,12 +16,36 @@ CLAUSE = ('SimpleCaseClause', 'RangeCaseClause', 'CompareCaseClause', 'ArrayDimR
           'PrintSep', 'ElseClause')
 
 
+MUTABLE = ('AssignmentStmt', 'PrintStmt', 'CallStmt', 'IfBeginStmt', 'ElseIfStmt', 'IfStmt', 'ForStmt', 'LoopStmt', 'DoStmt',
+           'WhileStmt', 'CaseStmt', 'SelectStmt', 'ReturnValueSetStmt', 'LocateStmt', 'ColorStmt', 'SoundStmt', 'PokeStmt')
+NOT_AFTER = ('THEN', 'ELSE', 'GOTO', 'GOSUB', 'RESTORE', 'RESUME', 'RETURN', 'TO', 'STEP')
+
+
+def literal_sites(src):
+    """positions of one-digit integer literals 3..9 standing alone as an operand, outside strings and comments"""
+    import re
+    out = []
+    for m in re.finditer(r'(?<![\w.#&!%$"])[3-9](?![\w.#&!%$"])', src):
+        p = m.start()
+        ls = src.rfind('\n', 0, p) + 1
+        before = src[ls:p]
+        if before.count('"') % 2 or "'" in before or 'REM' in before.upper() or 'DATA' in before.upper():
+            continue
+        if not before.strip() or before.strip()[-1] == ':' and before.strip()[:-1].isdigit():
+            continue        # a line number
+        w = before.upper().split()
+        if w and w[-1] in NOT_AFTER[:7]:
+            continue        # a line-number operand
+        out.append(p)
+    return out
+
+
 def analyse(t):
     return real.big_frame(lambda: _analyse(t))
 
 
 def _analyse(t):
-    src, inputs, o = t
+    src, inputs, o, nmut_max = t
     from qbee.stmt import Stmt, Block
     st = real.try_compile(src, o, True)
     if st[0] != 'ok':
@@ -153,6 +177,35 @@ def _analyse(t):
         nxt = min([s for s in sub_starts if s > r.start_offset] + [len(mod.code)])
         if r.end_offset != nxt and len(out['problems']) < 6:
             out['problems'].append(('routine-record-does-not-cover-the-routine', name, r.start_offset, r.end_offset, nxt))
+    # oracle 5: changing a literal changes code only inside the record of the statement it is written in
+    # (ties record offsets to source TEXT independently of which node the markers were emitted for)
+    import random as _r
+    rng = _r.Random(len(src) * 7919 + o)
+    sites = literal_sites(src)
+    rng.shuffle(sites)
+    nmut = 0
+    for pos in sites[:nmut_max]:
+        cands = [r for r in dbg.stmts if type(r.node).__name__ in MUTABLE and r.source_start_offset is not None
+                 and r.source_end_offset is not None and r.source_start_offset <= pos < r.source_end_offset]
+        if not cands:
+            continue
+        rec = min(cands, key=lambda r: r.source_end_offset - r.source_start_offset)
+        new = rng.choice([d for d in '3456789' if d != src[pos]])
+        st2 = real.try_compile(src[:pos] + new + src[pos + 1:], o, True)
+        if st2[0] != 'ok':
+            continue
+        code2 = real.split_sections(st2[2]).get(4)
+        code1 = real.split_sections(b).get(4)
+        if code2 is None or len(code2) != len(code1) or code1 == code2:
+            continue
+        nmut += 1
+        diffs = [i for i in range(len(code1)) if code1[i] != code2[i]]
+        outside = [i for i in diffs if not (rec.start_offset <= i < rec.end_offset)]
+        if outside and len(out['problems']) < 6:
+            out['problems'].append(('literal-change-alters-code-outside-the-record-of-its-statement', type(rec.node).__name__,
+                                    rec.source_start_line, (rec.start_offset, rec.end_offset), outside[:3],
+                                    src[rec.source_start_offset:rec.source_end_offset][:60]))
+    out['n_mutations'] = nmut
     return out
 
 
@@ -170,19 +223,21 @@ def run(chk):
             src, inputs = special[i], []
         else:
             src, inputs = progs.gen_program(rng, size=rng.choice([3, 5, 8]), depth=rng.choice([1, 2, 3]))
-        tasks.append((src, inputs, i % 3))
+        tasks.append((src, inputs, i % 3, chk.n(3, 10)))
     for k in chk.known:
         if k.get('example'):
-            tasks.append((k['example'] + '\n', [], 2))
+            tasks.append((k['example'] + '\n', [], 2, 0))
     res = real.pmap(analyse, tasks)
     reqs_c, exp_c, reqs_f, exp_f, meta = [], [], [], [], []
     hits = {}
     nmod = 0
     ninstr = 0
-    for (src, inputs, o), out in zip(tasks, res):
+    nmutations = 0
+    for (src, inputs, o, _), out in zip(tasks, res):
         if out['status'] != 'ok':
             continue
         nmod += 1
+        nmutations += out.get('n_mutations', 0)
         ninstr += out['n_instr']
         for pr in out['problems']:
             sig = 'C11 ' + pr[0]
@@ -230,7 +285,8 @@ def run(chk):
                 chk.say('find_stmt disagree:', meta[i][0][:80].replace('\n', ' / '), 'position', k)
     chk.stats['find_stmt'] = {'cases': sum(len(e.split()) for e in exp_f), 'disagree': nbf}
     chk.samples += [{'program': meta[i][0][:300], 'O': meta[i][1], 'records': exp_c[i][0][:8]} for i in range(min(3, len(meta)))]
-    chk.cov['input_distribution'] = {'modules': nmod, 'instructions': ninstr, 'oracle_hits': hits}
+    chk.cov['input_distribution'] = {'modules': nmod, 'instructions': ninstr, 'oracle_hits': hits,
+                                     'literal_mutations_localised': nmutations}
     return chk.finish(
         level='proof', level_text='',
         trusted_base=['Lean 4.33.0 kernel', 'axioms: ' + ', '.join(sorted({a for v in chk.theorems.values() for a in v})),
@@ -245,6 +301,6 @@ def run(chk):
 
 def replay(data):
     r = data['replay']
-    out = _analyse((r['src'], [], r['O']))
+    out = _analyse((r['src'], [], r['O'], 10))
     print(out.get('problems'))
     return 0
